@@ -81,6 +81,8 @@ func c18(r *core.Run) {
 	c07PayloadProvenance(r, "V9", replyFunnels(r.P), r.P.FuncsOfPkg(""))
 	r.Rule("V11", "what is published is what was encoded (shared with C07.P10): no function appends onto a truncated prefix of a slice it was handed - a trace helper shortening a large payload that way replaces bytes in the middle of the response the client is about to parse", 1)
 	c07NoAppendIntoForeignPrefix(r, "V11", []string{"", "resprot"})
+	r.Rule("V12", "what a reference may hold (shared with C17.G2): IsValidRID accepts exactly the printable non-space ASCII range 33..126 and singles out '?': a wider class (DEL, 0x7f) lets Ref / SoftRef values through validation that the protocol - and the other validators - reject", 1)
+	c17CharClass(r, "V12", map[string]bool{"IsValidRID": true})
 	r.Rule("V10", "classification depends on the text only: every json.Unmarshal of the store's value parser decodes into a zero value made for that call or into the receiver's own members; a pooled or package-level scratch object keeps the members of an earlier parse that the current text does not mention (encoding/json merges), and a reference is classified as a soft reference, a data value as invalid", 1)
 	r.Rule("V7", "equality looks at what the parser set: for every value class, the members of a store Value that Equal reads in that class's arm are members the value parser assigns on every path that ends in that class (the parser does not reset the others, so in a Value that is decoded into again they hold what an earlier text left behind); otherwise Equal answers from stale bytes - equal values differ, different values compare equal", 4)
 	r.Rule("V3", "decoders own their bytes: no UnmarshalJSON method of the library keeps (a slice or byte-slice conversion of) its input parameter in the receiver - the json.Unmarshaler contract lets the caller reuse the buffer, after which a retained alias changes the value's JSON and its equality", 3)
